@@ -188,6 +188,49 @@ def audit():
 # ---------------------------------------------------------------------------
 # evaluating the model inside Coq
 # ---------------------------------------------------------------------------
+class TooSlow(BaseException):
+    """raised by time_limit: one exact-arithmetic run whose rationals explode (BaseException so that handlers which
+    record ordinary exceptions as findings do not swallow it)"""
+
+
+class time_limit:
+    """SIGALRM-based limit for one implementation run (main thread only; nests: the outer alarm is restored)"""
+
+    def __init__(self, seconds):
+        self.seconds = seconds
+
+    def __enter__(self):
+        import signal
+
+        def handler(signum, frame):
+            raise TooSlow()
+        self.old = signal.signal(signal.SIGALRM, handler)
+        self.left = signal.alarm(self.seconds)
+
+    def __exit__(self, *exc):
+        import signal
+        signal.alarm(0)
+        signal.signal(signal.SIGALRM, self.old)
+        if self.left:
+            signal.alarm(self.left)
+        return False
+
+
+def arm(seconds):
+    """start the watchdog for one case (see time_limit); disarm() in the `finally` of the case"""
+    import signal
+
+    def handler(signum, frame):
+        raise TooSlow()
+    signal.signal(signal.SIGALRM, handler)
+    signal.alarm(seconds)
+
+
+def disarm():
+    import signal
+    signal.alarm(0)
+
+
 def qlit(x):
     fr = Fraction(x)
     if fr.numerator >= 0:
